@@ -145,6 +145,18 @@ func (n *node) afterArrival(b *sblk, res int) {
 			if class == "" && lb != nil && n.replacedByGap(lb) {
 				class = classLazyLoad
 			}
+			// the SAME off-chain LIB block reported again later (the entry it was taken from may have been overwritten meanwhile): the
+			// class belongs to that block's adoption as LIB, not to the node
+			if lb != nil {
+				if class != "" {
+					if n.libClass == nil {
+						n.libClass = map[*sblk]string{}
+					}
+					n.libClass[lb] = class
+				} else {
+					class = n.libClass[lb]
+				}
+			}
 			n.fail(fmt.Sprintf("reported LIB %s is not a block of the node's main chain (main chain has %s at %d, best %s)",
 				w.showBI(lib), nameAt(n.main, lib.No), lib.No, n.best.name), class)
 		}
